@@ -517,6 +517,14 @@ func (m *machine) applyStake(o fop) error {
 	if n >= 3 {
 		m.class("three-farmers-staked")
 	}
+	for _, q := range m.pools {
+		if q != p && (strings.HasPrefix(q.id, p.id) || strings.HasPrefix(p.id, q.id)) {
+			if fq, ok := q.farmers[o.Who]; ok && fq.exists {
+				m.class("farmer-in-prefix-related-pools")
+				break
+			}
+		}
+	}
 	m.class("stake")
 	return m.checkDelta("stake", before, e)
 }
